@@ -783,3 +783,9 @@ func OSRemove(name string) error {
 }
 
 func OSReadFile(name string) ([]byte, error) { return os.ReadFile(name) }
+
+// SleepYields: under the symbolic scheduler a time.Sleep of the code under test lets every other
+// runnable thread go first WITHOUT charging the preemption bound (a sleep is a blocking operation:
+// in 100 ms everything else runs). Off by default; a harness switches it on for itself. Natively
+// a no-op (the recorded schedule is imposed as usual).
+func SleepYields() {}
